@@ -39,18 +39,32 @@ class Recorder:
 		self.fails: list[tuple[str, str]] = []
 		self.nontrivial = False
 		self.nested_done = 0
+		self.aborted = False
 
 
-def run(root, mode: str, nested_kinds: set[str]) -> Recorder:
-	"""mode: 'fallback' | 'exact'."""
+class Abort(Exception):
+	pass
+
+
+def run(root, mode: str, nested_kinds: set[str], abort_at: int | None = None) -> Recorder:
+	"""mode: 'fallback' | 'exact'. With abort_at a first run on the same Procedure is aborted by an exception raised in the handler of the
+	abort_at-th node (the caller catches it, as the interactive mode does); the judged run is the one after it."""
 	from rogw.tranp.errors import Errors
 	from rogw.tranp.semantics.procedure import Procedure
 
 	rec = Recorder()
 	proc = Procedure()
 	depth = {'n': 0}
+	aborting = {'left': abort_at}
 
 	def record(node, event: dict):
+		if aborting['left'] is not None:
+			aborting['left'] -= 1
+			if aborting['left'] <= 0:
+				aborting['left'] = None
+				rec.aborted = True
+				raise Abort()
+			return node
 		if depth['n'] == 0:
 			rec.order.append(node)
 			rec.events[(node.module_path, node.full_path)] = (node, event)
@@ -90,6 +104,15 @@ def run(root, mode: str, nested_kinds: set[str]) -> Recorder:
 		# handlers are keyed by classification: register one per classification met in the flattened tree
 		for n in [*root.procedural(), root]:
 			ensure(n)
+	if abort_at is not None:
+		try:
+			proc.exec(root)
+		except Abort:
+			pass
+		except Errors.Fatal as e:  # the procedure reports an unknown exception of a handler as Errors.Fatal(node, 'Unhandled error', cause)
+			if not isinstance(e.__cause__, Abort):
+				raise
+		aborting['left'] = None
 	try:
 		result = proc.exec(root)
 	except Errors.Logic as e:
@@ -102,7 +125,7 @@ def run(root, mode: str, nested_kinds: set[str]) -> Recorder:
 		return rec
 	if not same(result, root):
 		rec.fails.append(('exec:result', f'exec(root) returned {result!r}'))
-	if len(proc._Procedure__stacks) != 0:
+	if abort_at is None and len(proc._Procedure__stacks) != 0:  # private state: only judged for runs without a caught abort before them
 		rec.fails.append(('stack:depth', f'{len(proc._Procedure__stacks)} stacks left after exec'))
 	return rec
 
@@ -164,7 +187,7 @@ def check_events(root, rec: Recorder) -> None:
 		rec.fails.append(('visit:order', f'{len(rec.order)} handler calls for {len(flat)} nodes of procedural()'))
 
 
-def judge(app, source: str, nested_kinds: list[str]) -> tuple[list[tuple[str, str]], dict]:
+def judge(app, source: str, nested_kinds: list[str], abort_at: int | None = None) -> tuple[list[tuple[str, str]], dict]:
 	from rogw.tranp.errors import Errors
 	try:
 		entry = app.parse(source)
@@ -173,9 +196,13 @@ def judge(app, source: str, nested_kinds: list[str]) -> tuple[list[tuple[str, st
 	root = app.nodes_for(entry)
 	info = {'nontrivial': False, 'nodes': 0}
 	fails: list[tuple[str, str]] = []
-	for mode in ('fallback', 'exact'):
+	for mode in ('fallback', 'exact') + (('after-abort',) if abort_at else ()):
 		try:
-			rec = run(root, mode, set(nested_kinds) if mode == 'fallback' else set())
+			if mode == 'after-abort':
+				rec = run(root, 'fallback', set(), abort_at)
+				info['aborted'] = rec.aborted
+			else:
+				rec = run(root, mode, set(nested_kinds) if mode == 'fallback' else set())
 			if not rec.fails:
 				check_events(root, rec)
 		except Errors.Error as e:
@@ -210,7 +237,7 @@ def cases(draw):
 	from vf import syngen
 	rnd = draw(st.randoms(use_true_random=False))
 	src, stats = syngen.gen_module(rnd, rnd.choice(['mixed', 'mixed', 'mixed', 'expr']), friendly=rnd.random() < 0.85)
-	return {'source': src, 'nested': rnd.sample(KINDS, rnd.randint(0, 4))}
+	return {'source': src, 'nested': rnd.sample(KINDS, rnd.randint(0, 4)), 'abort_at': rnd.choice([None, None, 2, 3, 5, 8, 13, 21])}
 
 
 def shard(ctx: core.Ctx) -> None:
@@ -218,7 +245,7 @@ def shard(ctx: core.Ctx) -> None:
 
 	for path in corpus.shard_files(ctx.tier, ctx.shard, ctx.nshards):
 		rel = os.path.relpath(path, env.REPO)
-		fails, info = judge(app(ctx.scratch), corpus.read(path), ['Function', 'Method', 'Class', 'If', 'FuncCall'])
+		fails, info = judge(app(ctx.scratch), corpus.read(path), ['Function', 'Method', 'Class', 'If', 'FuncCall'], 40)
 		if fails and fails[0][0] == 'OUT':
 			ctx.discard('g3-' + fails[0][1])
 			continue
@@ -229,15 +256,15 @@ def shard(ctx: core.Ctx) -> None:
 			break
 
 	def body(case: dict) -> None:
-		fails, info = judge(app(ctx.scratch), case['source'], case['nested'])
+		fails, info = judge(app(ctx.scratch), case['source'], case['nested'], case.get('abort_at'))
 		if fails and fails[0][0] == 'OUT':
 			ctx.discard(fails[0][1])
 			ctx.evaluations += 1
 			return
 		ctx.case(case['source'], info['nontrivial'], sample={'source': case['source'], 'nested_exec_in': case['nested'], 'nodes': info['nodes']} if len(case['source']) < 300 else None,
-			labels=['g2-module'] + (['nested-exec'] if info.get('nested') else []))
+			labels=['g2-module'] + (['nested-exec'] if info.get('nested') else []) + (['run-after-caught-abort'] if info.get('aborted') else []))
 		for sig, detail in fails:
-			ctx.fail(sig, detail + f'\n  source={case["source"]!r}', {'kind': 'module', 'source': case['source'], 'nested': case['nested']})
+			ctx.fail(sig, detail + f'\n  source={case["source"]!r}', {'kind': 'module', 'source': case['source'], 'nested': case['nested'], 'abort_at': case.get('abort_at')})
 
 	core.drive(ctx, cases(), body, total=ctx.budget['modules'], chunk=50)
 
@@ -249,9 +276,9 @@ def replay(case: dict) -> list[tuple[str, str]]:
 		_app = None
 		try:
 			if case['kind'] == 'file':
-				fails, _ = judge(app(s.path), corpus.read(os.path.join(env.REPO, case['path'])), ['Function', 'Method', 'Class', 'If', 'FuncCall'])
+				fails, _ = judge(app(s.path), corpus.read(os.path.join(env.REPO, case['path'])), ['Function', 'Method', 'Class', 'If', 'FuncCall'], 40)
 			else:
-				fails, _ = judge(app(s.path), case['source'], case['nested'])
+				fails, _ = judge(app(s.path), case['source'], case['nested'], case.get('abort_at'))
 			return [f for f in fails if f[0] != 'OUT']
 		finally:
 			_app = None
